@@ -3,8 +3,8 @@ NEXT Next
 CONSTANTS
   MaxOwn = 2
   MaxScen = 2
-  TwoFeat = TRUE
-  EmitMod = 41
+  OtherModes = {"none", "after"}
+  EmitMod = 31
 INVARIANT ClausesHold
 INVARIANT RepairedHolds
 INVARIANT KFNarrow
